@@ -331,11 +331,16 @@ impl RunCtx {
 
     pub fn progress(&self) { self.main.unpark(); }
 
+    /// Threads of this run that wait (parked) for a stamp of another thread are woken after every stamp they may be waiting for.
+    /// All harness threads register themselves before the start barrier and park/unpark carries its own token, so no wake-up can
+    /// be missed whatever the memory ordering of the stamps themselves is (they are Relaxed in the race-detecting builds).
     pub fn note_for_firer(&self) {
-        if let Some(f) = self.firer.get() { f.unpark(); }
-        if let Some(f) = self.pusher.get() { f.unpark(); }
-        if self.has_waiters.load(Ordering::SeqCst) { for t in self.waiters.lock().unwrap().iter() { t.unpark(); } }
+        if !self.has_waiters.load(Ordering::Relaxed) { return; }
+        for t in self.waiters.lock().unwrap().iter() { t.unpark(); }
     }
+
+    /// Called by every harness thread of the run before the start barrier
+    pub fn register_thread(&self) { self.waiters.lock().unwrap().push(thread::current()); }
 }
 
 // ---------------------------------------------------------------------------------------------
@@ -380,7 +385,7 @@ impl Span {
             }
         }
         st.inside.store(op + 1, ORD);
-        if ctx.has_waiters.load(Ordering::Relaxed) || ctx.prog.fire.iter().any(|a| matches!(a, FAct::WaitStart(_))) { ctx.note_for_firer(); }
+        ctx.note_for_firer();
         Span { ctx: Arc::clone(ctx), op, done: false }
     }
 
@@ -755,8 +760,6 @@ pub fn run_thread(ctx: &Arc<RunCtx>, acts: Vec<TAct>, mortal: Option<Arc<Obj>>) 
             TAct::Attempt(kind, obj) => attempt(ctx, kind, obj),
             TAct::Checkpoint => { if let Some(h) = ctx.prog.checkpoint_hold { let _b = ctx.blocked(NO_OP, PH_HOLD); ctx.progress(); ctx.holds[h].wait(); } }
             TAct::WaitStart(op) => {
-                ctx.waiters.lock().unwrap().push(thread::current());
-                ctx.has_waiters.store(true, Ordering::SeqCst);
                 let _b = ctx.blocked(op, PH_FIREWAIT);
                 while ctx.recs[op].start.load(ORD) == 0 { thread::park(); }
             }
@@ -966,6 +969,12 @@ pub struct Handles {
     pub objects:    Vec<Option<Arc<Obj>>>,
 }
 
+fn prog_has_waits(prog: &Program) -> bool {
+    let t = |a: &TAct| matches!(a, TAct::WaitStart(_) | TAct::HandResumer(_));
+    let f = |a: &FAct| matches!(a, FAct::WaitRet(_) | FAct::WaitStart(_) | FAct::Resume(..) | FAct::WaitDropped(_));
+    prog.threads.iter().flatten().any(t) || prog.phases.iter().flat_map(|p| p.threads.iter().flatten()).any(t) || prog.fire.iter().any(f) || prog.pusher.iter().any(f)
+}
+
 pub fn build(prog: Program, native: bool) -> Handles {
     let sink = Arc::new(Sink { viol: Mutex::new(vec![]), has_viol: AtomicBool::new(false) });
     let mut objs = vec![]; let mut weak = vec![]; let mut objects = vec![];
@@ -995,7 +1004,7 @@ pub fn build(prog: Program, native: bool) -> Handles {
         resumers: (0..n).map(|_| Mutex::new(None)).collect(),
         resume_stamp: (0..n).map(|_| AtomicU64::new(0)).collect(),
         wake_classes: (0..9 * 6).map(|_| AtomicU32::new(0)).collect(),
-        native, expected_panic_seen: AtomicU32::new(0), attempts: Mutex::new(vec![]), stash: Mutex::new(Default::default()), waiters: Mutex::new(vec![]), stashed_wakers: Mutex::new(vec![]), has_waiters: AtomicBool::new(false),
+        native, expected_panic_seen: AtomicU32::new(0), attempts: Mutex::new(vec![]), stash: Mutex::new(Default::default()), waiters: Mutex::new(vec![]), stashed_wakers: Mutex::new(vec![]), has_waiters: AtomicBool::new(prog_has_waits(&prog)),
         prog,
     });
     Handles { ctx, objects }
